@@ -11,7 +11,9 @@ import sys, os, json, subprocess, shutil, time, re
 ROOT = os.path.dirname(os.path.dirname(os.path.abspath(__file__)))
 REPO = "/repo"
 ENV = dict(os.environ, GOFLAGS="-mod=mod", GOPROXY="off", GOSUMDB="off", GOTOOLCHAIN="local")
-KNOWN_FAIL = {"TestMatch1", "TestGraphToJSON", "TestSelectFields", "TestBatchGraphValidation", "TestBasicAuthFail"}
+# always-failing tests of the pinned tree, plus two load-dependent flakes that also fail on the unchanged tree
+# (test/server start-up race; kvgraph/test TestNumField: RemoveAll of a still-open LevelDB directory)
+KNOWN_FAIL = {"TestMatch1", "TestGraphToJSON", "TestSelectFields", "TestBatchGraphValidation", "TestBasicAuthFail", "TestNumField"}
 
 
 def sh(cmd, cwd=None, timeout=None):
@@ -43,7 +45,7 @@ def confirm(d):
     res = {"at": time.strftime("%Y-%m-%dT%H:%M:%SZ", time.gmtime())}
     try:
         demo = m.get("demo", {})
-        place = demo.get("place_at")
+        place = (demo.get("place_at") or "").split(" ")[0] or None
         runcmd = demo.get("run")
         demo_src = [f for f in os.listdir(d) if f.startswith("demo")]
         rc, out = sh("git apply --check %s" % os.path.join(ROOT, d, "patch.diff"), cwd=wt)
@@ -126,13 +128,54 @@ def run(d, tier, props=None):
     return results
 
 
+def run_iso(d, tier, props=None):
+    """Like run, but in a private copy of /verif and a private worktree of /repo (several can run at once)."""
+    m = load_meta(d)
+    props = props or [m["property"]]
+    name = os.path.basename(d.rstrip("/"))
+    base = "/var/tmp/sr/" + name
+    shutil.rmtree(base, ignore_errors=True)
+    os.makedirs(base)
+    vcopy, rcopy = base + "/verif", base + "/repo"
+    sh("cp -a %s %s" % (ROOT, vcopy))
+    sh("rm -rf %s/.work/C* %s/replay/*" % (vcopy, vcopy))
+    sh("git -C %s worktree add -q --detach %s HEAD" % (REPO, rcopy))
+    results = {}
+    try:
+        rc, out = sh("git apply %s" % os.path.join(ROOT, d, "patch.diff"), cwd=rcopy)
+        if rc != 0:
+            return {"error": "patch does not apply to /repo HEAD: " + out[-300:]}
+        for p in props:
+            t0 = time.time()
+            rc, out = sh("VERIF_REPO=%s ./check %s --tier %s" % (rcopy, p, tier), cwd=vcopy, timeout=7200)
+            v = [l for l in out.splitlines() if l.startswith("VIOLATION")]
+            rp = None
+            if v:
+                mm = re.search(r"replay=(\S+)", v[0])
+                if mm and os.path.exists(os.path.join(vcopy, mm.group(1))):
+                    shutil.copy(os.path.join(vcopy, mm.group(1)), os.path.join(ROOT, d, "replay-%s.json" % p))
+                    r = json.load(open(os.path.join(vcopy, mm.group(1))))
+                    rp = {"kind": r.get("kind"), "where": r.get("where"), "why": r.get("why"),
+                          "theorem_or_correspondence": r.get("theorem_or_correspondence"),
+                          "broken": [b.get("what") for b in r.get("broken", [])][:4], "n_ops": len(r.get("ops", []) or [])}
+            results[p] = {"tier": tier, "exit": rc, "violation_lines": v, "caught": bool(v) and rc == 1, "replay": rp,
+                          "wall_s": round(time.time() - t0, 1), "repo_head": sh("git -C %s rev-parse --short HEAD" % REPO)[1].strip(),
+                          "tail": out[-600:] if not v else ""}
+            print(name, p, "caught" if results[p]["caught"] else "MISSED", v[:1], flush=True)
+    finally:
+        sh("git -C %s worktree remove --force %s" % (REPO, rcopy))
+        shutil.rmtree(base, ignore_errors=True)
+        sh("git -C %s worktree prune" % REPO)
+    return results
+
+
 if __name__ == "__main__":
     mode, d = sys.argv[1], sys.argv[2].rstrip("/")
     m = load_meta(d)
     if mode == "confirm":
         m["confirmed"] = confirm(d)
         print(json.dumps(m["confirmed"], indent=1))
-    elif mode == "run":
+    elif mode in ("run", "run-iso"):
         tier = "quick"
         props = None
         for i, a in enumerate(sys.argv):
@@ -140,7 +183,7 @@ if __name__ == "__main__":
                 tier = sys.argv[i + 1]
             if a == "--props":
                 props = sys.argv[i + 1].split(",")
-        r = run(d, tier, props)
+        r = run_iso(d, tier, props) if mode == "run-iso" else run(d, tier, props)
         if r is not None:
             m.setdefault("check_results", {}).update(r)
     save_meta(d, m)
